@@ -11,3 +11,7 @@ import Proto.Select
 import Proto.SelectProofs
 import Proto.Mat
 import Proto.MatProofs
+import Proto.DominanceSpec
+import Proto.RankProofs2
+import Proto.Untied
+import Proto.UntiedProofs
